@@ -146,6 +146,9 @@ func (g *Gen) instr(st *State, in ssa.Instruction) {
 	case *ssa.RunDefers:
 		g.runDefers(st, x)
 	case *ssa.Go:
+		if g.C != nil && g.C.Sequential && !g.C.Trusted {
+			g.oblige(st, "no-go", "", "sequential: the function starts no goroutine", x.Pos(), False)
+		}
 		g.goInstr(st, x)
 	case *ssa.Send:
 		g.send(st, x)
